@@ -35,6 +35,8 @@ DT_CORE = [
     "1600000000", "1600000000.5", "0", "-1",
     # the second occurrence of a repeated wall time (fold=1), and fold=1 where it means nothing
     "dt(2020,10,25,2,30,tz=Z('Europe/Amsterdam'),fold=1)", "dt(2021,4,4,1,45,tz=Z('Australia/Lord_Howe'),fold=1)",
+    # wall times whose UTC instant lies outside year 1..9999
+    "dt(1,1,1,0,0,0,tz=off(5,30))", "dt(9999,12,31,23,59,59,999999,tz=off(5,neg=True))",
     "dt(2020,6,1,12,0,0,tz=off(5,30),fold=1)", "dt(2020,6,1,12,0,0,tz=UTC,fold=1)", "dt(2020,6,1,12,0,0,fold=1)",
 ]
 DIGEST_CORE = [
